@@ -118,8 +118,8 @@ def shapes_for(algo, tier):
     if algo == "tensor_ring_als":
         return [(3, 4, 2), (2, 3, 2, 2), (4, 2, 3)] if q else [(3, 4, 2), (3, 3, 3), (2, 3, 2, 2), (4, 3), (4, 2, 3)]
     if q:
-        return [(4, 3), (3, 4, 2), (2, 3, 2, 2)]
-    return [(4, 3), (2, 2), (3, 4, 2), (3, 3, 3), (2, 3, 2, 2), (2, 2, 2, 2)]
+        return [(4, 3), (3, 4, 2), (2, 3, 2, 2), (3, 1, 2)]
+    return [(4, 3), (2, 2), (3, 4, 2), (3, 3, 3), (2, 3, 2, 2), (2, 2, 2, 2), (3, 1, 2), (1, 4, 3)]
 
 
 def families_for(algo, tier):
